@@ -210,7 +210,10 @@ type DefaultBuilder = AppBuilder<
 >;
 
 fn block_of(h: u64) -> BlockInfo {
-    BlockInfo { height: h, time: Timestamp::from_seconds(1_000_000 + h), chain_id: format!("chain-{}", h) }
+    // boundary values included: blank chain id, height 0-like small values, zero time
+    let chain_id = if h % 5 == 0 { String::new() } else { format!("chain-{}", h) };
+    let time = if h % 7 == 0 { Timestamp::from_nanos(0) } else { Timestamp::from_seconds(1_000_000 + h) };
+    BlockInfo { height: if h % 11 == 0 { 0 } else { h }, time, chain_id }
 }
 
 fn apply_bstep(b: DefaultBuilder, s: &BStep) -> DefaultBuilder {
